@@ -94,6 +94,33 @@ func (c13) Classify(o *Outcome) {
 		o.Detail = "(worker died: counts as terminated) " + o.Detail
 		o.Status = "held"
 		o.count("inputs_that_crashed_the_process", 1)
+	case "budget":
+		if c13Confirmed >= 2 {
+			return // two budget violations were already confirmed through the CLI: the rest are not re-run
+		}
+		// confirm with the real binary in a fresh process: the in-process budget is sampled on a loaded
+		// machine, the CLI under RLIMIT_CPU is the deciding observation
+		in, _ := o.Replay.(map[string]interface{})
+		text, ok := in["input"].(string)
+		if !ok {
+			o.Status = "inconclusive"
+			o.Detail = "budget exceeded but the input in flight was not recorded\n" + o.Detail
+			return
+		}
+		dir := filepath.Join(scratch(), fmt.Sprintf("c13-confirm-%d", o.Idx))
+		os.MkdirAll(dir, 0755)
+		defer os.RemoveAll(dir)
+		os.WriteFile(filepath.Join(dir, "in.y"), []byte(text), 0644)
+		for _, args := range [][]string{{"generate", "go", "in.y", "out.go"}, {"generate", "go", "-o", "-u", "in.y", "out.go"}, {"generate", "typescript", "in.y", "out.ts"}, {"debug", "in.y"}} {
+			res := runCLI(10, 90*time.Second, dir, args...)
+			if res.Signal != "" || res.Exit == 137 || res.Exit == 152 {
+				o.Detail = fmt.Sprintf("(budget) in-process run burnt 5 CPU-seconds and `yaccgo %v` on the same %d-byte input was killed by RLIMIT_CPU=10s (%s)\n%s", args, len(text), res.Signal, o.Detail)
+				c13Confirmed++
+				return // stays "budget" -> violation
+			}
+		}
+		o.Status = "held"
+		o.count("budget_exceeded_inprocess_but_cli_terminates(load)", 1)
 	case "blocked":
 		// re-run through the real CLI, which would end in the runtime's deadlock abort
 		in, _ := o.Replay.(map[string]interface{})
@@ -116,6 +143,8 @@ func (c13) Classify(o *Outcome) {
 		}
 	}
 }
+
+var c13Confirmed int
 
 var editAlphabet = []byte("{}%'\"/*<>:|;$\n \\-0a")
 
